@@ -365,22 +365,140 @@ theorem readHeader_append (dn : Bool) (e : End) (s x : Bytes) (hd : RespHead) (s
     rw [List.drop_append_of_le_length this]
     exact ⟨h.1, by rw [h.2]⟩
 
+theorem parseFirstLine_pos (b : Bytes) (hd : RespHead) (m : Nat) (h : parseFirstLine b = .ok (hd, m)) : 0 < m := by
+  unfold parseFirstLine at h
+  cases ha : parseFirstLineAux (b.length + 1) b 0 with
+  | error e => simp [ha, bind, Except.bind] at h
+  | ok p =>
+    obtain ⟨line, c⟩ := p
+    have hpos := parseFirstLineAux_pos _ _ _ _ _ ha
+    simp only [ha, bind, Except.bind] at h
+    split at h
+    · simp at h
+    · split at h
+      · simp at h
+      · split at h
+        · simp at h
+        · simp only [Except.ok.injEq, Prod.mk.injEq] at h
+          omega
+
+theorem parseRespHead_pos (dn : Bool) (b : Bytes) (hd : RespHead) (n : Nat)
+    (h : parseRespHead dn b = .ok (hd, n)) : 0 < n := by
+  unfold parseRespHead at h
+  cases hf : parseFirstLine b with
+  | error e => simp [hf, bind, Except.bind] at h
+  | ok p =>
+    obtain ⟨hd0, m⟩ := p
+    have hm := parseFirstLine_pos b hd0 m hf
+    simp only [hf, bind, Except.bind] at h
+    cases hp : parseHeaders dn hd0 (List.drop m b) with
+    | error e => simp [hp] at h
+    | ok q =>
+      obtain ⟨hd1, k1⟩ := q
+      simp only [hp, Except.ok.injEq, Prod.mk.injEq] at h
+      omega
+
+/-- every head `resp.ReadHeader` accepts takes at least one byte -/
+theorem readHeader_shrinks (dn : Bool) (e : End) (s : Bytes) (hd : RespHead) (s0 : Bytes)
+    (h : readHeader dn e s = .ok (hd, s0)) : s0.length < s.length := by
+  unfold readHeader at h
+  cases hp : parseRespHead dn s with
+  | error err => rw [hp] at h; cases err <;> cases e <;> simp at h
+  | ok p =>
+    obtain ⟨hd', n⟩ := p
+    have h1 := parseRespHead_pos dn s hd' n hp
+    have h2 := parseRespHead_le dn s hd' n hp
+    rw [hp] at h
+    simp only [Except.ok.injEq, Prod.mk.injEq] at h
+    rw [← h.2, List.length_drop]
+    omega
+
+/-- the loop of `resp.ReadHeaders` never runs out of fuel: any two fuels above the length give the same result -/
+theorem readHeadersLoop_fuel (dn : Bool) (e : End) : ∀ (f1 f2 : Nat) (s : Bytes), s.length < f1 → s.length < f2 →
+    readHeadersLoop dn e f1 s = readHeadersLoop dn e f2 s
+  | 0, _, _, h, _ => by omega
+  | _ + 1, 0, _, _, h => by omega
+  | f1 + 1, f2 + 1, s, h1, h2 => by
+    unfold readHeadersLoop
+    cases hh : readHeader dn e s with
+    | error err => rfl
+    | ok p =>
+      obtain ⟨hd0, s0⟩ := p
+      have := readHeader_shrinks dn e s hd0 s0 hh
+      simp only
+      split
+      · exact readHeadersLoop_fuel dn e f1 f2 s0 (by omega) (by omega)
+      · rfl
+
+/-- one unfolding of `resp.ReadHeaders` -/
+theorem readHeaders_step (dn : Bool) (e : End) (s : Bytes) :
+    readHeaders dn e s =
+      match readHeader dn e s with
+      | .error x => .error x
+      | .ok (hd0, s0) => if isInterim hd0.status then readHeaders dn e s0 else .ok (hd0, s0) := by
+  unfold readHeaders
+  rw [readHeadersLoop]
+  cases hh : readHeader dn e s with
+  | error err => rfl
+  | ok p =>
+    obtain ⟨hd0, s0⟩ := p
+    have := readHeader_shrinks dn e s hd0 s0 hh
+    simp only
+    split
+    · exact readHeadersLoop_fuel dn e _ _ s0 (by omega) (by omega)
+    · rfl
+
+theorem notInterim_of_notSkip (st : Nat) (h : mustSkipCL st = false) : isInterim st = false := by
+  cases hi : isInterim st with
+  | false => rfl
+  | true =>
+    simp only [isInterim, Bool.or_eq_true, beq_iff_eq] at hi
+    rcases hi with (rfl | rfl) | rfl <;> simp [mustSkipCL] at h
+
+theorem readHeadersLoop_append (dn : Bool) (e : End) (x : Bytes) : ∀ (fuel : Nat) (s : Bytes) (hd : RespHead) (s1 : Bytes),
+    readHeadersLoop dn .stall fuel s = .ok (hd, s1) → readHeadersLoop dn e fuel (s ++ x) = .ok (hd, s1 ++ x)
+  | 0, _, _, _, h => by simp [readHeadersLoop] at h
+  | fuel + 1, s, hd, s1, h => by
+    unfold readHeadersLoop at h ⊢
+    cases hh : readHeader dn .stall s with
+    | error err => rw [hh] at h; simp at h
+    | ok p =>
+      obtain ⟨hd0, s0⟩ := p
+      rw [readHeader_append dn e s x hd0 s0 hh]
+      rw [hh] at h
+      simp only at h ⊢
+      by_cases h100 : isInterim hd0.status = true
+      · rw [if_pos h100] at h ⊢
+        exact readHeadersLoop_append dn e x fuel s0 hd s1 h
+      · rw [if_neg h100] at h ⊢
+        simp only [Except.ok.injEq, Prod.mk.injEq] at h ⊢
+        exact ⟨h.1, by rw [h.2]⟩
+
+theorem readHeadersLoop_mono (dn : Bool) (e : End) : ∀ (f f' : Nat) (s : Bytes) (r : RespHead × Bytes),
+    readHeadersLoop dn e f s = .ok r → f ≤ f' → readHeadersLoop dn e f' s = .ok r
+  | 0, _, _, _, h, _ => by simp [readHeadersLoop] at h
+  | _ + 1, 0, _, _, _, hf => by omega
+  | f + 1, f' + 1, s, r, h, hf => by
+    unfold readHeadersLoop at h ⊢
+    cases hh : readHeader dn e s with
+    | error err => rw [hh] at h; simp at h
+    | ok p =>
+      obtain ⟨hd0, s0⟩ := p
+      rw [hh] at h
+      simp only at h ⊢
+      split
+      · rename_i hi
+        rw [if_pos hi] at h
+        exact readHeadersLoop_mono dn e f f' s0 r h (by omega)
+      · rename_i hi
+        rw [if_neg hi] at h
+        exact h
+
 theorem readHeaders_append (dn : Bool) (e : End) (s x : Bytes) (hd : RespHead) (s1 : Bytes)
     (h : readHeaders dn .stall s = .ok (hd, s1)) : readHeaders dn e (s ++ x) = .ok (hd, s1 ++ x) := by
   unfold readHeaders at h ⊢
-  cases hh : readHeader dn .stall s with
-  | error err => rw [hh] at h; simp at h
-  | ok p =>
-    obtain ⟨hd0, s0⟩ := p
-    rw [readHeader_append dn e s x hd0 s0 hh]
-    rw [hh] at h
-    simp only at h ⊢
-    by_cases h100 : hd0.status = 100
-    · rw [if_pos h100] at h ⊢
-      exact readHeader_append dn e s0 x hd s1 h
-    · rw [if_neg h100] at h ⊢
-      simp only [Except.ok.injEq, Prod.mk.injEq] at h ⊢
-      exact ⟨h.1, by rw [h.2]⟩
+  have := readHeadersLoop_append dn e x _ s hd s1 h
+  exact readHeadersLoop_mono dn e _ _ _ _ this (by simp)
 
 /-- the response says where its body ends (it is not "read until the connection closes") -/
 def Framed (hd : RespHead) : Prop := mustSkipCL hd.status = true ∨ hd.cl ≥ -1
